@@ -137,7 +137,7 @@ pub const C01: Check = Check {
                    "every generated instant is at least 30 minutes away from the run's clock; runs longer than 10 s are not judged"],
     shards: |_| 16,
     watchdog: |t| Duration::from_secs(t.pick(600, 3600)),
-    budget: |t| Duration::from_secs(t.pick(40, 600)),
+    budget: |t| Duration::from_secs(t.pick(40, 300)),
     run: |c, r| run_c01_c02(c, r, true),
     crash_is_violation: false,
     finish: None,
@@ -153,7 +153,7 @@ pub const C02: Check = Check {
     assumptions: &["as C01"],
     shards: |_| 16,
     watchdog: |t| Duration::from_secs(t.pick(600, 3600)),
-    budget: |t| Duration::from_secs(t.pick(40, 600)),
+    budget: |t| Duration::from_secs(t.pick(40, 300)),
     run: |c, r| run_c01_c02(c, r, false),
     crash_is_violation: false,
     finish: None,
